@@ -47,6 +47,12 @@ func VerifC20IsDeviated() {
 	diff.Abs(diff)
 	// floor(diff*10000/old) >= bp over the mathematical integers (no width, no rounding)
 	dev := new(big.Int).Div(new(big.Int).Mul(diff, big.NewInt(10000)), o)
+	if dev.Cmp(new(big.Int).Lsh(big.NewInt(1), 63)) >= 0 {
+		// a deviation beyond the int64 range of basis points exceeds every threshold
+		vs.Assert("move-beyond-int64-basis-points-is-deviated", got)
+		vs.Reach("beyond-int64-basis-points", true)
+		return
+	}
 	want := dev.Cmp(big.NewInt(bp)) >= 0
 	vs.Assert("deviated-iff-exact-basis-points-reach-threshold", got == want)
 	vs.Reach("deviated", got)
